@@ -2,6 +2,7 @@
 pub(crate) mod lattice;
 pub mod worker;
 
+use crate::dictionary::character::CATE_IDSET_BITS;
 use crate::dictionary::connector::{ConnectorCost, ConnectorWrapper};
 use crate::dictionary::Dictionary;
 use crate::errors::{Result, VibratoError};
@@ -47,6 +48,14 @@ impl Tokenizer {
                     "SPACE is not defined in the input dictionary (i.e., char.def).",
                 )
             })?;
+            // Category sets hold CATE_IDSET_BITS bits; a later category can never be
+            // assigned to a character, and shifting by its id would overflow or wrap.
+            if cate_id >= CATE_IDSET_BITS as u32 {
+                return Err(VibratoError::invalid_argument(
+                    "dict",
+                    "SPACE must be one of the first 18 categories in the input dictionary (i.e., char.def).",
+                ));
+            }
             self.space_cateset = Some(1 << cate_id);
         } else {
             self.space_cateset = None;
